@@ -22,7 +22,40 @@ func wantParams(s *msggen.Spec) []har.Param {
 	return ps
 }
 
+// inflateCases: decoded sizes far above the compressed size, at several magnitudes: a highly
+// compressible body (a short pattern repeated) of 1 MiB .. 70 MiB that is a few KiB .. 100 KiB on the
+// wire, gzip and deflate, Content-Length and chunked. A decoder with a cap on what it inflates, a log
+// that keeps only so much, shows as a content shorter than the decoded body. Each in a case of its own
+// (no export of a 70 MiB entry); body and decoded body travel as seed+length / length+hash.
+func inflateCases(r *core.Rand, tier string, emit func([]string)) {
+	const M = 1 << 20
+	sizes := []int{M + 5, 33*M + 7, 65*M + 1}
+	if tier == "thorough" {
+		sizes = []int{M + 5, 4*M + 1, 16*M + 1, 32*M - 1, 32 * M, 32*M + 1, 40 * M, 64*M - 1, 64 * M, 64*M + 1, 70 * M}
+	}
+	for i, n := range sizes {
+		encs := []string{[]string{"gzip", "deflate"}[i%2]}
+		if tier == "thorough" {
+			encs = []string{"gzip", "deflate"}
+		}
+		for _, enc := range encs {
+			seed := r.U64() % 1000000
+			fr := r.Pick("cl", "chunked")
+			s := &msggen.Spec{Req: false, Code: 200, Framing: fr, Enc: enc, CT: "text/plain",
+				Payload: msggen.Payload(core.NewRand(seed), "rep", n)}
+			s.BodyTok = "gen:" + enc + ":rep:" + strconv.FormatUint(seed, 10) + ":" + strconv.Itoa(n)
+			if fr == "chunked" {
+				s.Chunks = []int{1 + r.Intn(5000)}
+			}
+			a := s.Abs()
+			core.Count("inflate:" + enc)
+			emit([]string{strings.Join(append([]string{"hres", "all", "p", c15.InflatedTok(a)}, a.Tokens()...), " ")})
+		}
+	}
+}
+
 func (P) Gen(r *core.Rand, tier string, emit func([]string)) {
+	inflateCases(r.Fork(), tier, emit)
 	n := 300
 	if tier == "thorough" {
 		n = 4000
